@@ -208,3 +208,16 @@ theorem strictOkB_spec (row out : List (Option Nat)) (first : Bool)
         refine ⟨sa, sb, ?_, ?_, this⟩
         · rw [List.getElem?_eq_getElem (by omega), hoa]
         · rw [List.getElem?_eq_getElem (by omega), hob]
+
+
+/-! `incomplete_valuation_profile_to_complete_valuation_profile` -/
+
+theorem fillZero_spec (vals : List (Option Rat)) :
+    (fillZero vals).length = vals.length ∧
+    (∀ (j : Nat) (v : Rat), vals[j]? = some (some v) → (fillZero vals)[j]? = some v) ∧
+    (∀ j : Nat, vals[j]? = some none → (fillZero vals)[j]? = some 0) := by
+  refine ⟨by simp [fillZero], ?_, ?_⟩
+  · intro j v h
+    simp [fillZero, List.getElem?_map, h]
+  · intro j h
+    simp [fillZero, List.getElem?_map, h]
